@@ -1,13 +1,16 @@
 package bx
 
 import (
+	"context"
 	"fmt"
+	"os"
 	"sort"
 	"strings"
 	"time"
 
 	"github.com/blevesearch/bleve/v2"
 	"github.com/blevesearch/bleve/v2/index/scorch"
+	"github.com/blevesearch/bleve/v2/mapping"
 )
 
 // Scorch returns the scorch instance behind idx (nil for other engines).
@@ -113,3 +116,36 @@ var AggressiveMergePlan = map[string]interface{}{"MaxSegmentsPerTier": 1, "Segme
 // (half of MaxSegmentSize 4) is not eligible and stays — merges are introduced next to kept segments
 // that carry obsoleted documents.
 var PartialMergePlan = map[string]interface{}{"MaxSegmentSize": 4}
+
+// DiskScorch creates an on-disk scorch index in a scratch directory; cleanup closes nothing, it
+// only removes the directory (call it after Close).
+func DiskScorch(m mapping.IndexMapping, cfg map[string]interface{}) (bleve.Index, func(), error) {
+	base := "/dev/shm"
+	if st, err := os.Stat(base); err != nil || !st.IsDir() {
+		base = os.TempDir()
+	}
+	dir, err := os.MkdirTemp(base, "verif-disk-")
+	if err != nil {
+		return nil, nil, err
+	}
+	idx, err := bleve.NewUsing(dir+"/idx", m, scorch.Name, scorch.Name, CopyConfig(cfg))
+	if err != nil {
+		os.RemoveAll(dir)
+		return nil, nil, err
+	}
+	return idx, func() { os.RemoveAll(dir) }, nil
+}
+
+// ForceMergeNow merges all segments of idx into one (and waits for quiescence).
+func ForceMergeNow(idx bleve.Index) error {
+	s := Scorch(idx)
+	if s == nil {
+		return nil
+	}
+	Quiesce(idx, 3*time.Second)
+	if err := s.ForceMerge(context.Background(), nil); err != nil {
+		return err
+	}
+	Quiesce(idx, 3*time.Second)
+	return nil
+}
